@@ -24,10 +24,13 @@ def r15f(rep, prog):
         cfg = fn.cfg
         hparam = fn.param_ids[3] if len(fn.param_ids) >= 4 else None
         tparam = fn.param_ids[2] if len(fn.param_ids) >= 3 else None
+        sparam = fn.param_ids[1] if len(fn.param_ids) >= 3 else None
         trues = [r for r in ex.returns_of(fn) if r.c and r.c[0].strip_all().cv == 1]
         if not trues or hparam is None:
             rep.undecided('R15f', fn.body, fn, what, 'no `return true` / no hop parameter')
             continue
+
+        new_dist_tests = []
 
         def atomize(leaf):
             s = leaf.strip_all()
@@ -46,8 +49,25 @@ def r15f(rep, prog):
                 # d_u must be the distance of the vertex just popped
                 if d is None:
                     return None
+                # a variable defined as combine(d_u, 1) / d_u + 1 is the distance of the vertex being discovered: its test
+                # `c <= max_hops` says d_u < max_hops
+                dd = d.strip_all()
+                plus1 = (dd.k in ('BinaryOperator',) and dd.op == '+' and (dd.c[0].strip_all().cv == 1 or dd.c[1].strip_all().cv == 1)) or \
+                    (dd.k in ex.CALL_KINDS and len(dd.c) >= 2 and dd.c[-1].strip_all().cv == 1 and any(ex.var_of(x) is not None for x in dd.c[1:-1]))
                 lt, eq, gt = ex.f_atom('lt'), ex.f_atom('eq'), ex.f_atom('gt')
+                if plus1:
+                    # (d_u + 1) op h  over the orderings of d_u vs h:  d_u+1 < h iff d_u < h-1 (finer than the three orderings): approximate
+                    # soundly for the use below - `<=`/`>` are exact: d_u + 1 <= h  iff  d_u < h
+                    if op == '<=':
+                        return lt
+                    if op == '>':
+                        return ex.f_or(eq, gt)
+                    return None
+                new_dist_tests.append(leaf)
                 return {'<': lt, '<=': ex.f_or(lt, eq), '>': gt, '>=': ex.f_or(gt, eq)}[op]
+            if s.k == 'BinaryOperator' and s.op in ('==', '!=') and sparam is not None and {ex.var_of(s.c[0]), ex.var_of(s.c[1])} == {sparam, tparam}:
+                f = ex.f_atom('s_is_t')
+                return f if s.op == '==' else ex.f_not(f)
             if s.k == 'BinaryOperator' and s.op in ('==', '!=') and (ex.var_of(s.c[0]) == tparam or ex.var_of(s.c[1]) == tparam):
                 f = ex.f_atom('is_t')
                 return f if s.op == '==' else ex.f_not(f)
@@ -59,6 +79,11 @@ def r15f(rep, prog):
             # orderings of d_u vs max_hops: exactly one of lt/eq/gt
             import itertools
             ok_all = True
+            if 's_is_t' in atoms:
+                rest = [a for a in atoms if a != 's_is_t']
+                if not any(ex.f_eval(f, dict(zip(rest, vals), s_is_t=False)) for vals in itertools.product((False, True), repeat=len(rest))):
+                    rep.ok('R15f', rt, fn, what, '`return true` for source == target: zero hops')
+                    continue
             others = [a for a in atoms if a not in ('lt', 'eq', 'gt')]
             for vals in itertools.product((False, True), repeat=len(others)):
                 envv = dict(zip(others, vals))
@@ -66,6 +91,28 @@ def r15f(rep, prog):
                 if ex.f_eval(f, envv):
                     ok_all = False   # `return true` reachable with d_u > max_hops
             if any(a in ('lt', 'eq', 'gt') for a in atoms) and ok_all:
+                # is the vertex found equal to the target the popped one, or a neighbour discovered from it (one hop further)?
+                nb = False
+                for (c_, pol_) in ex.ast_conditions(rt):
+                    for x in c_.walk():
+                        if x.k == 'BinaryOperator' and x.op in ('==', '!=') and tparam in (ex.var_of(x.c[0]), ex.var_of(x.c[1])):
+                            ov = ex.var_of(x.c[0]) if ex.var_of(x.c[1]) == tparam else ex.var_of(x.c[1])
+                            dv_ = ex.unique_def(fn, ov) if ov is not None else None
+                            if dv_ is not None and dv_.strip_all().k == 'CallExpr' and dv_.strip_all().callee and \
+                                    dv_.strip_all().callee['g'] in ('boost::target', 'boost::opposite', 'boost::source'):
+                                nb = True
+                if nb:
+                    # discovered vertex: needs d_u < max_hops
+                    bad_eq = False
+                    for vals in itertools.product((False, True), repeat=len(others)):
+                        envv = dict(zip(others, vals))
+                        envv.update({'lt': False, 'eq': True, 'gt': False})
+                        if ex.f_eval(f, envv):
+                            bad_eq = True
+                    if bad_eq:
+                        rep.violation('R15f', rt, fn, what, '`return true` for a neighbour of the popped vertex is reachable when the popped vertex is exactly '
+                                      'max_hops away: the target is then max_hops+1 hops away', key='R15f|%s|unbounded-true' % fn.g)
+                        continue
                 rep.ok('R15f', rt, fn, what, '`return true` is only reached with d_u <= max_hops for the popped vertex')
                 continue
             # alternative idiom: pushes are bounded
